@@ -66,7 +66,8 @@ def campaign(job):
         for k in range(n_ik):
             tolset = rng.choice(list(TOLSETS))
             arm.pos_tolerance, arm.rot_tolerance = TOLSETS[tolset]
-            path = rng.choice(["constrained", "constrained", "free", "free", "IKFree"])
+            path = rng.choice(["constrained", "constrained", "free", "free", "IKFree", "constrained"])
+            entry = "IK" if path != "constrained" or rng.random() < 0.6 else "constrainedIK"
             g = rng.choice(["reach", "reach", "reach", "between-pos", "between-rot", "beyond", "boundary"])
             th_star = inside(0.8)
             if g == "boundary":
@@ -104,7 +105,9 @@ def campaign(job):
             random.seed(rng.randrange(1 << 30))
             pos_tol, rot_tol = TOLSETS[tolset]
             try:
-                if path == "constrained":
+                if entry == "constrainedIK":
+                    th, ok = arm.constrainedIK(tm(goal.copy()), start.copy(), check=restarts)
+                elif path == "constrained":
                     th, ok = arm.IK(tm(goal.copy()), start.copy(), check=restarts)
                 elif path == "free":
                     th, ok = arm.IK(tm(goal.copy()), start.copy(), check=restarts, protect=True)
@@ -132,7 +135,7 @@ def campaign(job):
             margin = float(np.min(np.minimum(th_star - spec["mins"], spec["maxs"] - th_star)))
             wellcond = (n >= 6 and smin >= 0.05 and margin >= 0.15 and g == "reach")
             tiny = bool(np.any((np.abs(th) > 0) & (np.abs(th) < 1e-6)))   # known finding exp_cutoff
-            ev.append({"op": "IK", "g": "reach" if g.startswith("between") else g, "gen": g, "s": s, "path": path, "tiny": tiny,
+            ev.append({"op": "IK", "g": "reach" if g.startswith("between") else g, "gen": g, "s": s, "path": path, "tiny": tiny, "entry": entry,
                        "tolset": tolset, "restarts": 1 if restarts else 0, "ok": 1 if ok else 0,
                        "ang": q(ang / rot_tol * 1000), "pos": q(pos / pos_tol * 1000), "inlim": 1 if inlim else 0,
                        "coh": 1 if coh else 0, "stateis": 1 if stateis else 0, "wellcond": 1 if wellcond else 0,
@@ -150,7 +153,7 @@ CFG = ("SPECIFICATION TSpec\nCONSTANTS\n  Bases = {1, 2}\n  Thetas = {1, 2, 3}\n
 
 
 def strip(t):
-    return {"id": t["id"], "ev": [{k: v for k, v in e.items() if k not in ("detail", "gen", "tolset", "restarts", "tiny")} for e in t["ev"]]}
+    return {"id": t["id"], "ev": [{k: v for k, v in e.items() if k not in ("detail", "gen", "tolset", "restarts", "tiny", "entry")} for e in t["ev"]]}
 
 
 def run(ctx):
@@ -189,6 +192,8 @@ def run(ctx):
         key = "%s|%s|%s|%s" % (e["gen"], e["s"], e["path"], "ok" if e["ok"] else "fail")
         cov[key] = cov.get(key, 0) + 1
     need = ["between-pos|exact|constrained", "between-pos|exact|free", "between-rot|exact|constrained", "beyond|", "reach|near|"]
+    if not any(e.get("entry") == "constrainedIK" and e["ok"] for e in iks):
+        ctx.machinery("IK campaign never got a success out of Arm.constrainedIK")
     for nd in need:
         if not any(k.startswith(nd) or (nd.endswith("|") and nd in k) for k in cov):
             ctx.machinery("IK campaign never exercised %s" % nd)
@@ -196,7 +201,7 @@ def run(ctx):
     return ctx.finish({
         "traces_validated_against_impl": len(traces), "accepted": len(acc), "evaluations": len(iks), "ik_calls": len(iks),
         "ik_reported_success": sum(e["ok"] for e in iks), "distinct_nontrivial": len(iks),
-        "classes_exercised": cov, "arms": [m[0] for m in mk],
+        "classes_exercised": cov, "constrainedIK_calls": sum(1 for e in iks if e.get("entry") == "constrainedIK"), "arms": [m[0] for m in mk],
         "rule": "random IK campaigns per arm (optionally after a base move and a tool change): goal classes reach / "
                 "boundary / beyond / between-the-tolerances (position-only and orientation-only offsets of 1e-3), start "
                 "classes near / far / random / exact, three tolerance settings, restarts on/off, three solver entry "
